@@ -6,7 +6,7 @@
    validate_or_filter = encoding::validate_or_filter, gen_sb k = the loop body of a single-byte validator as
    GENERATED from private/encoding_validators.h.  Bytes and code points are N, strings are list N. *)
 From CppcmsV Require Import Base.Tac Base.CSem Base.Sweep C14.Defs C14.Spec C14.Proofs C14.Proofs2 C14.Proofs3
-  C14.Proofs4 C14.Proofs5 C14.Proofs6 C14.Proofs7 C14.Proofs8 C14.Link gen.Gen_C14.
+  C14.Proofs4 C14.Proofs5 C14.Proofs6 C14.ProofsW C14.Proofs7 C14.Proofs8 C14.Link C14.LinkT C14.LinkE C14.Defs16 C14.Proofs16 C14.Proofs16b C14.FilterSem C14.LinkF C14.LinkV C14.LinkN C14.ProofsF gen.Gen_C14.
 Local Open Scope N_scope.
 
 (* ---------------------------------------------------------------------------------------------------------
@@ -57,6 +57,51 @@ Proof.
   repeat split; try (vm_compute; reflexivity).
   change 8364 with ((226 - 224) * 4096 + (130 - 128) * 64 + (172 - 128)). apply Seq3_E1_EC; unfold tail; lia.
 Qed.
+
+(* ---------------------------------------------------------------------------------------------------------
+   1a. The same on the decoders as GENERATED from the source.  checks/C14.py translates the whole body of
+       utf8::next<char const *> (private/utf_iterator.h) and of utf_traits<char,1>::decode<char const *>
+       (booster/locale/utf.h) -- the lead-byte test, the fall-through switch, every `p==e` test, the trail checks, the
+       accumulation c = (c << 6) | (tmp & 0x3F), the range / shortest-form / HTML checks -- to
+         g_next (rd : Z -> Z) (n : Z) (html : bool) : Z * Z      g_b_decode (rd : Z -> Z) (n : Z) : Z * Z
+       rd k = the k-th byte of the input, n = number of bytes available, result = (returned value, bytes consumed).
+       rd_of l k = the k-th byte of l; code / codeb = the returned value for a model answer (utf::illegal = 0xFFFFFFFF,
+       incomplete = 0xFFFFFFFE).
+   --------------------------------------------------------------------------------------------------------- *)
+Theorem tie_next : forall html l, bytes_ok l ->
+  g_next (rd_of l) (Z.of_nat (length l)) html =
+  (code (fst (cppcms_next html l)), Z.of_nat (length l - length (snd (cppcms_next html l)))).
+Proof. exact link_next. Qed.
+Print Assumptions tie_next.
+
+Theorem tie_booster_decode : forall l, bytes_ok l ->
+  g_b_decode (rd_of l) (Z.of_nat (length l)) =
+  (codeb (fst (booster_decode l)), Z.of_nat (length l - length (snd (booster_decode l)))).
+Proof. exact link_b_decode. Qed.
+Print Assumptions tie_booster_decode.
+
+(* the generated framework decoder returns the value c exactly when the input starts with one UTF8-char of RFC 3629
+   denoting c (HTML mode: an HTML-safe one); otherwise it returns utf::illegal *)
+Theorem generated_next_exact : forall html l c, bytes_ok l -> c < 4294967295 ->
+  (fst (g_next (rd_of l) (Z.of_nat (length l)) html) = Z.of_N c <->
+   exists e r, Seq e c /\ l = e ++ r /\ (html = true -> html_safe c)).
+Proof. exact gen_next_exact. Qed.
+Print Assumptions generated_next_exact.
+
+(* both generated decoders agree on every byte string *)
+Theorem generated_decoders_agree : forall l, bytes_ok l ->
+  g_next (rd_of l) (Z.of_nat (length l)) false =
+  (let '(v, k) := g_b_decode (rd_of l) (Z.of_nat (length l)) in ((if Z.eqb v g_b_incomplete then g_illegal else v), k)).
+Proof. exact gen_decoders_agree. Qed.
+Print Assumptions generated_decoders_agree.
+
+Example generated_next_nonvacuous :
+  g_next (rd_of [226;130;172;65]) 4 true = (8364%Z, 3%Z) /\ g_next (rd_of [224;159;191]) 3 false = (g_illegal, 3%Z) /\
+  g_next (rd_of [237;160;128]) 3 false = (g_illegal, 3%Z) /\ g_next (rd_of [244;144;128;128]) 4 false = (g_illegal, 4%Z) /\
+  g_next (rd_of [194;159]) 2 true = (g_illegal, 2%Z) /\ g_next (rd_of [194;159]) 2 false = (159%Z, 2%Z) /\
+  g_next (rd_of [226;130]) 2 false = (g_illegal, 2%Z) /\ g_b_decode (rd_of [226;130]) 2 = (g_b_incomplete, 2%Z) /\
+  g_b_decode (rd_of [240;159;152;128;1]) 5 = (128512%Z, 4%Z).
+Proof. repeat split; vm_compute; reflexivity. Qed.
 
 (* ---------------------------------------------------------------------------------------------------------
    2. Whole strings: valid iff well-formed per RFC 3629 (Spec.WF = *( UTF8-char )), HTML-safe variant, count.
@@ -336,6 +381,89 @@ Proof.
 Qed.
 
 (* ---------------------------------------------------------------------------------------------------------
+   5a. The same on the filter functions as GENERATED from src/encoding.cpp.  checks/C14.py translates
+       validate_or_filter_utf8 and validate_or_filter_single_byte_charset segment by segment (loop conditions, loop
+       bodies, the code between the loops; positions are offsets, utf8::next is the parameter nx, the tester the
+       parameter tst, appends to the output string are emissions); FilterSem.gen_vof_utf8 / gen_vof_sb run the
+       segments in source order (run_loop = while / for) with nx := the decoder model on the input and
+       tst := the validator model.  out0 = content of the output string before the call, v0 p0 q0 / c0 p0 = initial
+       values of the locals (arbitrary); result Some (returned value, output string afterwards).
+   --------------------------------------------------------------------------------------------------------- *)
+Theorem tie_filter_utf8 : forall repl l, repl < 256 -> forall out0 v0 p0 q0,
+  gen_vof_utf8 out0 v0 p0 q0 repl l = fres_obs out0 (vof_utf8 repl l).
+Proof. exact link_vof_utf8. Qed.
+Print Assumptions tie_filter_utf8.
+
+Theorem tie_filter_single_byte : forall k repl l, repl < 256 -> forall out0 c0 p0,
+  gen_vof_sb out0 c0 p0 (V_sb k) repl l = fres_obs out0 (vof_sb (V_sb k) repl l).
+Proof. exact link_vof_sb. Qed.
+Print Assumptions tie_filter_single_byte.
+
+(* the generated UTF-8 filter: returns true and leaves the output string alone exactly on HTML-safe UTF-8; otherwise
+   returns false and the output is the token-wise image of the input (Tok: an HTML-safe UTF8-char is copied, a well-formed
+   but unsafe UTF8-char is replaced as a whole, and where no UTF8-char starts ONE byte is replaced and decoding
+   resumes at the very next byte), which is valid whenever the replacement character is acceptable *)
+Theorem generated_filter_utf8_spec : forall out0 v0 p0 q0 repl l, repl < 256 ->
+  (gen_vof_utf8 out0 v0 p0 q0 repl l = Some (true, out0) /\ validate true l = true) \/
+  (exists o, gen_vof_utf8 out0 v0 p0 q0 repl l = Some (false, o) /\ validate true l = false /\ Tok repl l o /\
+             (repl_ok repl -> validate true o = true)).
+Proof. exact gen_filter_utf8_spec. Qed.
+Print Assumptions generated_filter_utf8_spec.
+
+(* filter (filter x) = filter x, on the generated function *)
+Theorem generated_filter_utf8_idempotent : forall out0 v0 p0 q0 out1 v1 p1 q1 repl l, repl < 256 -> repl_ok repl ->
+  let o := handed_on (gen_vof_utf8 out0 v0 p0 q0 repl l) l in
+  validate true o = true /\ gen_vof_utf8 out1 v1 p1 q1 repl o = Some (true, out1) /\
+  handed_on (gen_vof_utf8 out1 v1 p1 q1 repl o) o = o.
+Proof. exact gen_filter_utf8_idempotent. Qed.
+Print Assumptions generated_filter_utf8_idempotent.
+
+Theorem generated_filter_single_byte_spec : forall out0 c0 p0 k repl l, repl < 256 ->
+  (gen_vof_sb out0 c0 p0 (V_sb k) repl l = Some (true, out0) /\ sb_valid k l = true) \/
+  (exists o, gen_vof_sb out0 c0 p0 (V_sb k) repl l = Some (false, o) /\ sb_valid k l = false /\
+             o = flat_map (fun c => if byte_ok k c then [c] else rp repl) l /\
+             (sb_repl_ok k repl -> sb_valid k o = true)).
+Proof. exact gen_filter_sb_spec. Qed.
+Print Assumptions generated_filter_single_byte_spec.
+
+Theorem generated_filter_single_byte_idempotent : forall out0 c0 p0 out1 c1 p1 k repl l, repl < 256 -> sb_repl_ok k repl ->
+  let o := handed_on (gen_vof_sb out0 c0 p0 (V_sb k) repl l) l in
+  sb_valid k o = true /\ gen_vof_sb out1 c1 p1 (V_sb k) repl o = Some (true, out1).
+Proof. exact gen_filter_sb_idempotent. Qed.
+Print Assumptions generated_filter_single_byte_idempotent.
+
+Example generated_filter_nonvacuous :
+  gen_vof_utf8 [1;2;3] false 7 9 63 [72;27;195;40;226;130;172;255] = Some (false, [72;63;63;40;226;130;172;63]) /\
+  gen_vof_utf8 [1;2;3] true 0 0 0 [72;237;160;128;226;130] = Some (false, [72]) /\
+  gen_vof_utf8 [1;2;3] false 7 9 63 [72;226;130;172] = Some (true, [1;2;3]) /\
+  gen_vof_sb [9] 5 5 (V_sb SB_1252) 63 [72;129;233] = Some (false, [72;63;233]) /\
+  gen_vof_sb [9] 5 5 (V_sb SB_1252) 0 [72;233] = Some (true, [9]).
+Proof. repeat split; vm_compute; reflexivity. Qed.
+
+(* the validate loop GENERATED from private/utf_iterator.h (utf8::validate(p,e,count,html) for char const *; gen_validate
+   runs its segments: Some (returned value, count afterwards)) is the model's validate_count, and satisfies the property *)
+Theorem tie_validate_loop : forall html l cnt, (Z.of_N cnt + Z.of_nat (length l) < 2 ^ 64)%Z ->
+  gen_validate html l cnt = vres_obs (validate_count html l cnt).
+Proof. exact link_validate. Qed.
+Print Assumptions tie_validate_loop.
+
+Theorem generated_validate_spec : forall html l cnt n, (Z.of_N cnt + Z.of_nat (length l) < 2 ^ 64)%Z ->
+  (gen_validate html l cnt = Some (true, Z.of_N n) <->
+   exists cps, WF l cps /\ (html = true -> Forall html_safe cps) /\ n = cnt + N.of_nat (length cps)).
+Proof. exact gen_validate_spec. Qed.
+Print Assumptions generated_validate_spec.
+
+Theorem tie_validate3_loop : forall html l, gen_validate3 html l = Some (validate html l).
+Proof. exact link_validate3. Qed.
+Print Assumptions tie_validate3_loop.
+
+Example generated_validate_nonvacuous :
+  gen_validate true [72;195;169;226;130;172;240;159;152;128;10] 7 = Some (true, 12%Z) /\
+  gen_validate true [72;27] 0 = Some (false, 1%Z) /\ gen_validate false [72;27] 0 = Some (true, 2%Z) /\
+  gen_validate false [72;195;40] 0 = Some (false, 1%Z).
+Proof. repeat split; vm_compute; reflexivity. Qed.
+
+(* ---------------------------------------------------------------------------------------------------------
    5b. Form text widgets (src/form.cpp base_text::load + validate; enc = encoding name of the context locale):
        invalid text is rejected and the length limits count code points (bytes for a single-byte charset or when
        charset validation is switched off).  Limits in the range of a non-negative int; high = -1: no upper limit.
@@ -362,11 +490,37 @@ Theorem form_text_without_charset_validation : forall enc value low high,
 Proof. exact text_widget_no_charset. Qed.
 Print Assumptions form_text_without_charset_validation.
 
+(* the number the widget compares with its limits is the number of scalar values of the value (not its bytes), and the
+   comparison is exact at the boundary: n code points pass an upper limit of n and n+1 and fail n-1, pass a lower
+   limit of n and fail n+1, however many bytes they take *)
+Theorem form_text_counts_code_points : forall enc value cps, lookup enc = Some V_utf8 -> WF value cps -> Forall html_safe cps ->
+  text_load true enc value = Some (true, N.of_nat (length cps)).
+Proof. exact text_load_counts_code_points. Qed.
+Print Assumptions form_text_counts_code_points.
+
+Theorem form_text_limit_boundary : forall enc value cps, lookup enc = Some V_utf8 -> WF value cps -> Forall html_safe cps ->
+  let n := Z.of_nat (length cps) in (0 < n < 2 ^ 31 - 1)%Z ->
+  text_widget true enc value 0 (n - 1) = Some false /\ text_widget true enc value 0 n = Some true /\
+  text_widget true enc value 0 (n + 1) = Some true /\
+  text_widget true enc value n (-1) = Some true /\ text_widget true enc value (n + 1) (-1) = Some false /\
+  text_widget true enc value n n = Some true.
+Proof. exact text_widget_boundary. Qed.
+Print Assumptions form_text_limit_boundary.
+
+Theorem code_points_at_most_bytes : forall l cps, WF l cps -> (length cps <= length l)%nat.
+Proof. exact code_points_le_bytes. Qed.
+Print Assumptions code_points_at_most_bytes.
+
 Example form_text_nonvacuous :
   text_widget true [85;84;70;45;56] [226;130;172;65] 2 2 = Some true /\      (* 4 bytes, 2 code points, limits 2..2 *)
   text_widget true [85;84;70;45;56] [226;130;172;65] 3 (-1) = Some false /\
   text_widget false [85;84;70;45;56] [226;130;172;65] 3 4 = Some true /\
-  text_widget true [85;84;70;45;56] [226;130;65] 0 (-1) = Some false.
+  text_widget true [85;84;70;45;56] [226;130;65] 0 (-1) = Some false /\
+  (* two code points in 7 bytes: limits 2 / 1 / 3 although 2 < 7 bytes and the second character straddles byte 4 *)
+  text_load true [85;84;70;45;56] [226;130;172;240;159;152;128] = Some (true, 2) /\
+  text_widget true [85;84;70;45;56] [226;130;172;240;159;152;128] 0 1 = Some false /\
+  text_widget true [85;84;70;45;56] [226;130;172;240;159;152;128] 0 2 = Some true /\
+  text_widget true [85;84;70;45;56] [226;130;172;240;159;152;128] 3 (-1) = Some false.
 Proof. repeat split; vm_compute; reflexivity. Qed.
 
 (* ---------------------------------------------------------------------------------------------------------
@@ -457,3 +611,108 @@ Print Assumptions tie_booster_trail_length.
 Print Assumptions tie_booster_width.
 Print Assumptions tie_single_byte_bodies.
 Print Assumptions tie_encoding_name_step.
+
+(* the validators table: the list generated from validators_set::validators_set() (names, validator as its position in
+   Link.all_kinds / 100 for utf8_valid) is the model's enc_table; its keys are pairwise inequivalent under the comparator *)
+Theorem tie_validators_table : g_enc_table = map table_entry enc_table.
+Proof. exact link_enc_table. Qed.
+Print Assumptions tie_validators_table.
+Theorem validators_table_keys_distinct : pairwise_distinct enc_table = true.
+Proof. exact enc_table_keys_distinct. Qed.
+Print Assumptions validators_table_keys_distinct.
+Theorem validator_index_is_position : forall k, nth_error all_kinds (Z.to_nat (kind_index k)) = Some k.
+Proof. exact kind_index_is_position. Qed.
+Print Assumptions validator_index_is_position.
+
+(* ---------------------------------------------------------------------------------------------------------
+   8. The UTF-16 side of the support library (utf_traits<CharType,2>, Defs16) and the conversions through
+      booster::locale::conv::utf_to_utf: every scalar value survives encode / decode, what decodes is a scalar value in
+      its only UTF-16 form, and UTF-8 -> UTF-16 -> UTF-8 preserves the code points of well-formed text in either mode
+      (skip / stop); ill-formed input: skip drops what does not decode, stop throws (conv_f, as for UTF-8 above).
+   --------------------------------------------------------------------------------------------------------- *)
+Theorem utf16_decode_encode_id : forall c r, scalar c -> u16_decode (u16_encode c ++ r) = (Cp c, r).
+Proof. exact u16_decode_encode. Qed.
+Print Assumptions utf16_decode_encode_id.
+
+Theorem utf16_decode_exact : forall l c r, units_ok l -> u16_decode l = (Cp c, r) -> scalar c /\ l = u16_encode c ++ r.
+Proof. exact u16_decode_sound. Qed.
+Print Assumptions utf16_decode_exact.
+
+Theorem utf16_encode_length_is_width : forall c, Z.of_nat (length (u16_encode c)) = u16_width c.
+Proof. exact u16_encode_length. Qed.
+Print Assumptions utf16_encode_length_is_width.
+
+Theorem utf8_utf16_utf8_preserves_code_points : forall stop l cps, WF l cps ->
+  utf8_to_utf16 stop l = Some (Some (flat_map u16_encode cps)) /\
+  utf16_to_utf8 stop (flat_map u16_encode cps) = Some (Some l) /\ units_ok (flat_map u16_encode cps).
+Proof. exact utf8_utf16_roundtrip. Qed.
+Print Assumptions utf8_utf16_utf8_preserves_code_points.
+
+(* ill-formed input, per the policy of booster::locale::conv (skip: what does not decode is dropped; stop: conversion_error):
+   UTF-8 -> UTF-16 in stop mode throws exactly on text that is not well-formed UTF-8; in skip mode both UTF-8 -> UTF-8 and
+   UTF-8 -> UTF-16 keep exactly the same code points cps (all scalar values), the outputs being their UTF-8 / UTF-16
+   forms, and the UTF-16 output converts back to that UTF-8 output; UTF-16 -> UTF-8 in skip mode always yields
+   well-formed UTF-8, and in stop mode an answer means the input was the UTF-16 form of scalar values, preserved *)
+Theorem utf8_to_utf16_stop_throws_iff_malformed : forall l, utf8_to_utf16 true l = Some None <-> validate false l = false.
+Proof. exact utf8_to_utf16_stop. Qed.
+Print Assumptions utf8_to_utf16_stop_throws_iff_malformed.
+
+Theorem utf8_to_utf16_skip_keeps_decodable_code_points : forall l, exists cps,
+  Forall scalar cps /\ utf_to_utf false l = Some (Some (flat_map encode cps)) /\ WF (flat_map encode cps) cps /\
+  utf8_to_utf16 false l = Some (Some (flat_map u16_encode cps)) /\ units_ok (flat_map u16_encode cps) /\
+  utf16_to_utf8 false (flat_map u16_encode cps) = Some (Some (flat_map encode cps)).
+Proof. exact utf8_to_utf16_skip. Qed.
+Print Assumptions utf8_to_utf16_skip_keeps_decodable_code_points.
+
+Theorem utf16_to_utf8_skip_yields_wellformed : forall l, units_ok l -> exists cps,
+  Forall scalar cps /\ utf16_to_utf8 false l = Some (Some (flat_map encode cps)) /\ WF (flat_map encode cps) cps.
+Proof. exact utf16_to_utf8_skip. Qed.
+Print Assumptions utf16_to_utf8_skip_yields_wellformed.
+
+Theorem utf16_to_utf8_stop_answers_only_on_wellformed : forall l o, units_ok l -> utf16_to_utf8 true l = Some (Some o) ->
+  exists cps, Forall scalar cps /\ l = flat_map u16_encode cps /\ o = flat_map encode cps.
+Proof. exact utf16_to_utf8_stop_sound. Qed.
+Print Assumptions utf16_to_utf8_stop_answers_only_on_wellformed.
+
+Theorem tie_utf16_surrogate_tests : forall x,
+  g_b16_is_first_surrogate (Z.of_N x) = is_first_surrogate x /\ g_b16_is_second_surrogate (Z.of_N x) = is_second_surrogate x /\
+  g_b16_trail_length (Z.of_N x) = u16_trail_length x /\ g_b16_width (Z.of_N x) = u16_width x.
+Proof. exact (fun x => conj (link_b16_first x) (conj (link_b16_second x) (conj (link_b16_trail_length x) (link_b16_width x)))). Qed.
+Print Assumptions tie_utf16_surrogate_tests.
+
+Theorem tie_utf16_combine_surrogate : forall w1 w2,
+  g_b16_combine_surrogate (Z.of_N w1) (Z.of_N w2) = Z.of_N (combine_surrogate w1 w2).
+Proof. exact link_b16_combine. Qed.
+Print Assumptions tie_utf16_combine_surrogate.
+
+(* the encoders GENERATED from booster/locale/utf.h (utf_traits<char>::encode, utf_traits<char16_t>::encode) are the
+   model's encode / u16_encode (which section 3 / 8 prove to be the RFC 3629 / RFC 2781 forms), and no encoding is longer
+   than the generated max_width *)
+Theorem tie_booster_encode : forall c, c < 2097152 -> g_b_encode (Z.of_N c) = map Z.of_N (encode c).
+Proof. exact link_b_encode. Qed.
+Print Assumptions tie_booster_encode.
+Theorem tie_encode : forall c, c < 2097152 -> g_encode (Z.of_N c) = map Z.of_N (encode c).
+Proof. exact link_encode. Qed.
+Print Assumptions tie_encode.
+Theorem tie_booster_utf16_encode : forall c, c <= 1114111 -> g_b16_encode (Z.of_N c) = map Z.of_N (u16_encode c).
+Proof. exact link_b16_encode. Qed.
+Print Assumptions tie_booster_utf16_encode.
+Theorem encodings_within_max_width : forall c,
+  (Z.of_nat (length (encode c)) <= g_b_max_width)%Z /\ (Z.of_nat (length (u16_encode c)) <= g_b16_max_width)%Z.
+Proof. exact (fun c => conj (encode_le_max_width c) (u16_encode_le_max_width c)). Qed.
+Print Assumptions encodings_within_max_width.
+
+Theorem tie_cppcms_utf16_helpers : forall x w1 w2,
+  g_c16_is_first_surrogate (Z.of_N x) = is_first_surrogate x /\ g_c16_is_second_surrogate (Z.of_N x) = is_second_surrogate x /\
+  g_c16_combine_surrogate (Z.of_N w1) (Z.of_N w2) = Z.of_N (combine_surrogate w1 w2).
+Proof. exact (fun x w1 w2 => conj (link_c16_first x) (conj (link_c16_second x) (link_c16_combine w1 w2))). Qed.
+Print Assumptions tie_cppcms_utf16_helpers.
+
+Example utf16_nonvacuous :
+  u16_decode [55357; 56832; 65] = (Cp 128512, [65]) /\ u16_encode 128512 = [55357; 56832] /\
+  u16_decode [55357; 65; 66] = (Illegal, [66]) /\ u16_decode [56832; 65] = (Illegal, [65]) /\ u16_decode [55357] = (Incomplete, []) /\
+  utf8_to_utf16 false [72;240;159;152;128;237;160;128;226;130;172] = Some (Some [72; 55357; 56832; 8364]) /\
+  utf8_to_utf16 true [72;237;160;128] = Some None /\
+  utf16_to_utf8 false [72; 55357; 56832; 56832; 8364] = Some (Some [72;240;159;152;128;226;130;172]) /\
+  utf16_to_utf8 true [55357; 65] = Some None.
+Proof. repeat split; vm_compute; reflexivity. Qed.
